@@ -2,19 +2,33 @@
 
 package kvcache
 
-// VerifCell is the metadata of one live cache location (C07 harness: diagnosis of data/metadata divergence).
+// VerifCell is one live cache location: its metadata and (when layer 0 has storage) the first two floats of its
+// K row, which the C07 scripted model uses to store (token, position).
 type VerifCell struct {
 	Loc  int
 	Pos  int32
 	Seqs []int
+	Tok  int32 // K row element 0
+	Kpos int32 // K row element 1
+	Data bool  // storage exists
 }
 
 // VerifCells07 returns the live cells (those referenced by at least one sequence) in location order.
 func (c *Causal) VerifCells07() []VerifCell {
+	var kd []float32
+	rowLen := 0
+	if k, ok := c.keys[0]; ok && k != nil {
+		kd = k.Floats()
+		rowLen = k.Dim(0) * k.Dim(1)
+	}
 	var out []VerifCell
 	for i, cell := range c.cells {
 		if len(cell.sequences) > 0 {
-			out = append(out, VerifCell{Loc: i, Pos: cell.pos, Seqs: append([]int(nil), cell.sequences...)})
+			vc := VerifCell{Loc: i, Pos: cell.pos, Seqs: append([]int(nil), cell.sequences...)}
+			if kd != nil && rowLen >= 2 && (i+1)*rowLen <= len(kd) {
+				vc.Tok, vc.Kpos, vc.Data = int32(kd[i*rowLen]), int32(kd[i*rowLen+1]), true
+			}
+			out = append(out, vc)
 		}
 	}
 	return out
